@@ -11,11 +11,11 @@ deco4004.c + an encoder from code4004.c; both opcode tables regenerated from the
   the extents of the traced instructions; `C15_areas_disjoint` – code and data areas share no address iff no traced
   instruction touches a vector cell; `C15_areas_inside` – inside the image for callbacks that only report bytes they fetched.
 Not proved here (tested against the real tools every run): text parsing and label resolution by asl for the 4004.
-The 6800/6802 theorems (round trip on the printed text, length, `Honest` under `Whole`, table facts) are in `Props/C15_6800.lean`.
+The 6800/6802 theorems (round trip on the printed text without excluded inputs, length, `Honest`, table facts) are in `Props/C15_6800.lean`.
 
-Full-strength statement that does NOT hold on the current tree (kept as comment):
-  theorem C15_4004_roundtrip_full : decode a op d = some dec → a + 2 < 4096 → encode 1 a dec.memo dec.args = some (imageBytes dec op d)
-fails for ISZ at a % 256 = 254 – see `C15_finding_4004_isz_page`. -/
+`C15_4004_roundtrip` is the full-strength statement: since the repair of `DecodeISZ` (page of PC+2, as deco4004.c computes it) no
+address is excluded; `C15_4004_isz_page_end` is the former counterexample.  `C15_4004_jcn_forward_label`: the first pass, in which
+the label dasl printed as JCN target is still a forward reference, emits the same two bytes' worth of code (repair of `DecodeJCN`). -/
 namespace AslModel.Dis
 open AslModel.Generated
 
@@ -23,14 +23,13 @@ open AslModel.Generated
 def I4004.imageBytes (dec : I4004.Dec) (op d : Nat) : List Nat := if dec.len = 1 then [op] else [op, d]
 
 theorem C15_4004_roundtrip (a op d : Nat) (dec : I4004.Dec) (hop : op < 256) (hd : d < 256) (ha : a + 2 < 4096)
-    (h : I4004.decode a op d = some dec)
-    (hisz : (I4004.row op).typ = .eISZ → a % 256 ≠ 254) :
+    (h : I4004.decode a op d = some dec) :
     I4004.encode 1 a dec.memo dec.args = some (I4004.imageBytes dec op d) := by
   have ht := I4004.table_ok op hop
   unfold I4004.tableOK at ht
   unfold I4004.decode at h
   generalize hr : I4004.row op = r at *
-  cases hty : r.typ <;> simp only [hty] at h ht hisz
+  cases hty : r.typ <;> simp only [hty] at h ht
   case eUnknown => simp at h
   all_goals
     cases hx : I4004.asmRow r.memo with
@@ -39,8 +38,8 @@ theorem C15_4004_roundtrip (a op d : Nat) (dec : I4004.Dec) (hop : op < 256) (hd
       simp only [hx] at ht
       simp only [Option.some.injEq] at h
       subst h
-      simp only [I4004.encode, hx, I4004.imageBytes]
-      simp only [Bool.and_eq_true, Bool.or_eq_true, beq_iff_eq, decide_eq_true_eq, forall_const] at ht hisz
+      simp only [I4004.encode, I4004.encodeF, hx, I4004.imageBytes]
+      simp only [Bool.and_eq_true, Bool.or_eq_true, beq_iff_eq, decide_eq_true_eq] at ht
       first
         | (obtain ⟨⟨hk, h1⟩, h2⟩ := ht
            simp only [hk]
@@ -60,13 +59,36 @@ example : ∃ dec, I4004.decode 0x0fd 0x15 0x05 = some dec ∧ dec.len = 2 ∧ d
 example : ∃ dec, I4004.decode 0x0fe 0x15 0x05 = some dec ∧ dec.args = [.cond 5, .addr 0x105] := ⟨_, rfl, rfl⟩
 example : I4004.encode 1 0x0fe ['j', 'c', 'n'] [.cond 5, .addr 0x105] = some [0x15, 0x05] := by decide +kernel
 
-/-- the ISZ exclusion is necessary: `isz r5,…` at 0x1FE with operand byte F0 decodes (target 0x2F0, page of Address+2),
-and the assembler-side decoder rejects that target (it compares with the page of PC+1).  Known finding `isz-page-boundary-4004`. -/
-theorem C15_finding_4004_isz_page :
+/-- the former exclusion (ISZ at xFE, known finding `isz-page-boundary-4004`, repaired): `isz r5,…` at 0x1FE with operand byte F0
+decodes to the target 0x2F0 (page of Address+2) and the assembler-side decoder, which now judges the page of PC+2 as well, gives
+the two bytes back; the target in the page of PC+1 is the one that is rejected -/
+theorem C15_4004_isz_page_end :
     ∃ dec, I4004.decode 0x1fe 0x75 0xf0 = some dec ∧ dec.args = [.reg 5, .addr 0x2f0] ∧
-      I4004.encode 1 0x1fe dec.memo dec.args = none ∧
-      I4004.encode 1 0x1fe dec.memo [.reg 5, .addr 0x1f0] = some [0x75, 0xf0] :=
+      I4004.encode 1 0x1fe dec.memo dec.args = some [0x75, 0xf0] ∧
+      I4004.encode 1 0x1fe dec.memo [.reg 5, .addr 0x1f0] = none :=
   ⟨_, rfl, rfl, by decide +kernel, by decide +kernel⟩
+
+/-- A JCN whose target dasl prints as a label defined further down (a forward reference for asl): in the first pass the label has the
+value of the program counter and the first-pass-unknown flag; `DecodeJCN` does not judge the page of such a value (repair of the known
+finding `jcn-forward-label-page-end-4004`: at xFE/xFF the program counter lies in the page before the valid targets), so the first pass
+lays two bytes whatever the placeholder is, and the final pass – target `v` in the page of PC+2 – lays `1c vv`.  Without the flag
+the placeholder value is rejected exactly at the page end. -/
+theorem C15_4004_jcn_forward_label (pc m v p : Nat) (hm : m < 16) (hv : v < 4096) (hp : p < 4096)
+    (hpage : (pc + 2) / 256 % 256 = v / 256 % 256) :
+    I4004.encodeF true 1 pc ['j', 'c', 'n'] [.cond m, .addr p] = some [16 + m, p % 256] ∧
+    I4004.encode 1 pc ['j', 'c', 'n'] [.cond m, .addr v] = some [16 + m, v % 256] ∧
+    (pc < 4094 → 254 ≤ pc % 256 → I4004.encodeF false 1 pc ['j', 'c', 'n'] [.cond m, .addr pc] = none) := by
+  have hr : I4004.asmRow ['j', 'c', 'n'] = some ⟨['J', 'C', 'N'], 0, 0, .jcn⟩ := by decide +kernel
+  refine ⟨?_, ?_, ?_⟩
+  · simp [I4004.encodeF, hr, hm, hp]
+  · simp [I4004.encode, I4004.encodeF, hr, hm, hv, I4004.hi, hpage]
+  · intro h1 h2
+    have : ¬ ((pc + 2) / 256 % 256 = pc / 256 % 256) := by omega
+    simp [I4004.encodeF, hr, I4004.hi, this]
+
+/-- non-vacuity: `jcn tz,L0300` at 0x2FE (the witness of the former finding): pass 1 with the placeholder 0x2FE, final pass 15 00 -/
+example : I4004.encodeF true 1 0x2fe ['j', 'c', 'n'] [.cond 5, .addr 0x2fe] = some [0x15, 0xfe] ∧
+    I4004.encode 1 0x2fe ['j', 'c', 'n'] [.cond 5, .addr 0x300] = some [0x15, 0x00] := by decide +kernel
 
 /-- length of a decoded instruction = number of image bytes it stands for = 1 or 2, two exactly for the operand forms;
 the successors are the operand address and the fall-through address -/
